@@ -923,3 +923,217 @@ REALISERS.append(("pygopherd/protocols/http.py::HTTPProtocol.handle", lambda d: 
 
 REALISERS.append(("pygopherd/protocols/base.py::BaseGopherProtocol.filenotfound", r_handle_faults))
 REALISERS.append(("pygopherd/handlers/UMN.py::", _first_confirmed(lambda d: r_dir(dict(d, obligation=d.get("obligation", "") + " processLinkFile prepare prep_entries")), r_c01_audit)))
+
+
+# ------------------------------------------------------------------- gophermap scenarios (C09 stand-in)
+def r_gophermap(d):
+    """Generated gophermap files (info lines, blank lines, links with 1-4 fields, absolute/relative/URL: selectors,
+    remote hosts, CRLF and LF endings, a last line without a newline) at three directory depths, read by the real
+    BuckGophermapHandler and compared with the reference reading spec.gophermap_ref; then the gopher listing of the
+    same directory must have one line per entry."""
+    import itertools, shutil, tempfile
+    import pygopherd.handlers.base as hb
+    import pygopherd.handlers.HandlerMultiplexer as hm
+    from pygopherd.handlers.gophermap import BuckGophermapHandler
+    from pygopherd import logger
+    from spec import specs as S
+    logger.log = lambda m: None
+    top = tempfile.mkdtemp(prefix="pyvc-gmap-", dir="/var/tmp")
+    try:
+        cfg = _config({})
+        cfg.set("pygopherd", "root", top)
+        firsts = ["0About", "1Sub dir", "hHome page", "iinfo with tab", "0", "9 spaced  name ", "IImage", "TTelnet 3270", "URL list"]
+        sels = [None, "", "rel.txt", "/abs/file.txt", "URL:http://example.org/", "sub/deeper.txt", " padded ", "URLs/list.txt", "URL"]
+        hosts = [None, "", "gopher.example.org"]
+        ports = [None, "", "70", " 7070 "]
+        links = []
+        for f in firsts:
+            for s in sels:
+                if s is None:
+                    links.append(f + "\t")
+                    continue
+                for h in hosts:
+                    if h is None:
+                        links.append(f + "\t" + s)
+                        continue
+                    for p in ports:
+                        links.append(f + "\t" + s + "\t" + h + ("" if p is None else "\t" + p))
+        links = [l for l in links if not (l.split("\t")[0].strip()[1:] == "" and (len(l.split("\t")) < 2 or l.split("\t")[1].strip() == ""))]
+        infos = ["Welcome to the server", "", "   indented text", "no tab: but a colon", "trailing blanks   "]
+        nscen = 0
+        for depth, base in enumerate(["", "/docs", "/docs/deep er/x"]):
+            dirp = top + base
+            os.makedirs(dirp, exist_ok=True)
+            open(os.path.join(dirp, "rel.txt"), "w").write("local file")
+            for eol, last_nl in (("\n", True), ("\r\n", True), ("\n", False)):
+                for k in range(0, len(links), 7):
+                    chunk = links[k:k + 7]
+                    lines = []
+                    for i, l in enumerate(chunk):
+                        lines.append(infos[(k + i) % len(infos)])
+                        lines.append(l)
+                    text = eol.join(lines) + (eol if last_nl else "")
+                    with open(os.path.join(dirp, "gophermap"), "w", newline="") as fh:
+                        fh.write(text)
+                    hb.rootpath = None; hm.rootpath = None; hm.handlers = None
+                    h = BuckGophermapHandler(base or "/", "", None, cfg, os.stat(dirp))
+                    if not h.canhandlerequest():
+                        return {"confirmed": True, "scenario": "a directory holding a gophermap is not claimed by the gophermap handler", "directory": base or "/"}
+                    want = S.gophermap_ref(text, base)
+                    try:
+                        h.prepare()
+                    except Exception as e:  # noqa
+                        return {"confirmed": True, "scenario": "well-formed gophermap %r in %s" % (text, base or "/"), "raised": repr(e)}
+                    got = [(e.gettype(), e.getname(), e.getselector(), e.gethost(), e.getport()) for e in h.getdirlist()]
+                    nscen += 1
+                    if len(got) != len(want):
+                        return {"confirmed": True, "scenario": "gophermap %r in %s" % (text, base or "/"), "entries": len(got), "lines": len(want)}
+                    for g, w_, raw in zip(got, want, text.splitlines()):
+                        local = w_[3] is None and w_[4] is None
+                        ok = g[0] == w_[0] and g[2] == w_[2] and g[3] == w_[3] and g[4] == w_[4] and (g[1] == w_[1] or (local and w_[1] == ""))
+                        if not ok:
+                            return {"confirmed": True, "scenario": "gophermap line %r in directory %s" % (raw, base or "/"), "entry (type, name, selector, host, port)": list(g), "reference reading": list(w_)}
+                    out, _l = _serve((base or "/").encode() + b"\r\n", cfg)
+                    nl = [x for x in out.split(b"\r\n") if x and x != b"."]
+                    if len(nl) != len(want):
+                        return {"confirmed": True, "scenario": "gopher listing of %s has %d lines for a gophermap of %d lines" % (base or "/", len(nl), len(want))}
+        return {"confirmed": None, "note": "%d generated gophermaps agree with the reference reading" % nscen}
+    finally:
+        shutil.rmtree(top, ignore_errors=True)
+        hb.rootpath = None; hm.rootpath = None; hm.handlers = None
+
+
+REALISERS.append(("pygopherd/handlers/gophermap.py::", r_gophermap))
+REALISERS.append(("pygopherd/gopherentry.py::getinfoentry", r_gophermap))
+
+
+# ------------------------------------------------------------------- archive vs. extracted tree (C16 stand-in)
+def r_zip(d):
+    """(1) Real-file-only handlers: an archive holding a mailbox file, a Maildir-shaped directory, an executable
+    script and a nested archive is browsed with the server's working directory watched: no handler may touch a
+    path outside the archive.  (2) A tree with nested and implicit directories, dot-files, sidecars, a .Links file,
+    a gophermap, UTF-8 names and relative/absolute/dangling/cyclic/escaping symlink members is served from disk
+    (/T/...) and from the archive (/T.zip/...) in four protocols; the answers must agree once the prefix and the
+    timestamps are removed, and an escaping link must not resolve."""
+    import re as _re, shutil, stat as _stat, tempfile, zipfile
+    import pygopherd.handlers.base as hb
+    import pygopherd.handlers.HandlerMultiplexer as hm
+    top = tempfile.mkdtemp(prefix="pyvc-zip-", dir="/var/tmp")
+    cwd = tempfile.mkdtemp(prefix="pyvc-zipcwd-", dir="/var/tmp")
+    old_cwd = os.getcwd()
+    try:
+        cfg = _config({})
+        cfg.set("pygopherd", "root", top)
+        cfg.set("handlers.ZIP.ZIPHandler", "enabled", "true")
+        cfg.set("handlers.dir.DirHandler", "cachetime", "0")
+
+        def serve(req):
+            hb.rootpath = None; hm.rootpath = None; hm.handlers = None
+            try:
+                out, logs = _serve(req, cfg)
+            except BaseException as e:  # noqa
+                return b"RAISED " + repr(e).encode(), []
+            return out, logs
+
+        # ---- (1) real-file-only handlers
+        os.chdir(cwd)
+        MB = b"From alice@example.org Mon Jan  1 00:00:00 2024\nSubject: hi\n\nbody\n\n"
+        inner = io.BytesIO()
+        with zipfile.ZipFile(inner, "w") as z:
+            z.writestr("hello.txt", b"member of the inner archive\n")
+        with zipfile.ZipFile(os.path.join(cwd, "inner.zip"), "w") as z:
+            z.writestr("secret.txt", b"outside the root\n")
+        open(os.path.join(cwd, "box.mbox"), "wb").write(MB.replace(b"hi", b"REAL FILE OUTSIDE THE ROOT"))
+        with zipfile.ZipFile(os.path.join(top, "R.zip"), "w") as z:
+            z.writestr("box.mbox", MB)
+            z.writestr("md/new/", b""); z.writestr("md/cur/", b""); z.writestr("md/tmp/", b"")
+            z.writestr("inner.zip", inner.getvalue())
+            zi = zipfile.ZipInfo("run.sh"); zi.external_attr = (_stat.S_IFREG | 0o755) << 16
+            z.writestr(zi, b"#!/bin/sh\necho EXECUTED\n")
+            zi = zipfile.ZipInfo("run.pyg"); zi.external_attr = (_stat.S_IFREG | 0o755) << 16
+            z.writestr(zi, b"raise SystemExit('EXECUTED')\n")
+        cfg.set("handlers.HandlerMultiplexer", "handlers",
+                "[ZIP.ZIPHandler, mbox.MaildirFolderHandler, mbox.MaildirMessageHandler, UMN.UMNDirHandler, mbox.MBoxMessageHandler, "
+                "mbox.MBoxFolderHandler, pyg.PYGHandler, scriptexec.ExecHandler, file.FileHandler]")
+        before = sorted(os.listdir(cwd))
+        for sel, expect in ((b"/R.zip/box.mbox", MB), (b"/R.zip/md", None), (b"/R.zip/box.mbox|/MBOX-MESSAGE/1", None), (b"/R.zip/md|/MAILDIR-MESSAGE/1", None),
+                            (b"/R.zip/inner.zip", inner.getvalue()), (b"/R.zip/inner.zip/hello.txt", None), (b"/R.zip/run.sh", b"#!/bin/sh\necho EXECUTED\n"),
+                            (b"/R.zip/run.pyg", b"raise SystemExit('EXECUTED')\n")):
+            out, logs = serve(sel + b"\r\n")
+            after = sorted(os.listdir(cwd))
+            if after != before:
+                return {"confirmed": True, "scenario": "request %r for an archive member changed the server's working directory (outside the archive)" % sel, "before": before, "after": after}
+            if b"REAL FILE OUTSIDE" in out or b"outside the root" in out or out.startswith(b"RAISED") or any("NoSuchMailbox" in l or "Traceback" in l for l in logs):
+                return {"confirmed": True, "scenario": "request %r for an archive member was handled by a real-file handler" % sel, "response": repr(out[:200]), "log": logs[-1:]}
+            if expect is not None and out != expect:
+                return {"confirmed": True, "scenario": "archive member %r is not served as the plain member bytes" % sel, "response": repr(out[:200])}
+        os.chdir(old_cwd)
+        # ---- (2) archive vs. extracted tree
+        T = os.path.join(top, "T")
+        files = {"a.txt": b"alpha\n", "dir/b.txt": b"beta\n", "dir/sub/c.txt": b"gamma\n", ".hidden": b"h\n", "dir/b.txt.abstract": b"About b\n",
+                 "dir/.Links": b"Name=Mirror\nType=1\nPath=/elsewhere\nHost=h.example\nPort=70\n", "gm/gophermap": b"Welcome\n0Doc\tdoc.txt\n1Up\t/\n", "gm/doc.txt": b"doc\n",
+                 "naïve.txt": b"utf8 name\n", "empty/": b"", "page.html": b"<html><head><title>T &amp; U</title></head><body>x</body></html>",
+                 "deep/er/still/x.bin": bytes(range(256)), "café/mü.txt": b"nested utf8\n"}
+        links = {"ln_rel": "a.txt", "dir/ln_up": "../a.txt", "ln_abs": "/dir/b.txt", "ln_dangling": "nowhere.txt", "ln_a": "ln_b", "ln_b": "ln_a",
+                 "ln_dir": "dir", "dir/sub/ln_upup": "../../gm/doc.txt"}
+        escaping = {"ln_escape": "../outside.txt", "dir/ln_escape2": "../../outside.txt"}
+        open(os.path.join(top, "outside.txt"), "w").write("OUTSIDE THE ARCHIVE\n")
+        for n, data in files.items():
+            p = os.path.join(T, n)
+            if n.endswith("/"):
+                os.makedirs(p, exist_ok=True)
+                continue
+            os.makedirs(os.path.dirname(p), exist_ok=True)
+            open(p, "wb").write(data)
+        with zipfile.ZipFile(os.path.join(top, "T.zip"), "w") as z:
+            for n, data in files.items():
+                z.writestr(n, data)
+            for n, dest in list(links.items()) + list(escaping.items()):
+                zi = zipfile.ZipInfo(n)
+                zi.external_attr = (_stat.S_IFLNK | 0o777) << 16
+                z.writestr(zi, dest)
+        for n, dest in links.items():
+            tgt = dest if not dest.startswith("/") else os.path.relpath(os.path.join(T, dest[1:]), os.path.dirname(os.path.join(T, n)))
+            os.symlink(tgt, os.path.join(T, n))
+        cfg.set("handlers.HandlerMultiplexer", "handlers",
+                "[ZIP.ZIPHandler, url.HTMLURLHandler, gophermap.BuckGophermapHandler, UMN.UMNDirHandler, html.HTMLFileTitleHandler, file.FileHandler]")
+
+        def norm(b):
+            b = b.replace(b"/T.zip", b"/T").replace(b"1T.zip\t", b"1T\t").replace(b"Gopher: T.zip", b"Gopher: T")
+            b = _re.sub(rb" Mod-Date: [^\r\n]*\r\n", b"", b)
+            b = _re.sub(rb"Last-Modified: [^\r\n]*\r\n", b"", b)
+            return b
+
+        sels = ["", "/", "/a.txt", "/dir", "/dir/", "/dir/b.txt", "/dir/sub", "/dir/sub/c.txt", "/.hidden", "/gm", "/gm/doc.txt", "/missing", "/dir/missing",
+                "/a.txt/below", "/empty", "/page.html", "/naïve.txt", "/café", "/café/mü.txt", "/deep", "/deep/er/still/x.bin", "/ln_rel", "/dir/ln_up",
+                "/ln_abs", "/ln_dangling", "/ln_a", "/ln_dir", "/ln_dir/b.txt", "/dir/sub/ln_upup", "/dir/.Links", "/gm/gophermap", "/dir/b.txt.abstract"]
+        enc = lambda s: s.encode("utf-8", "surrogateescape")
+        reqs = [("gopher", lambda s: enc(s) + b"\r\n"), ("gopher+ $", lambda s: enc(s) + b"\t$\r\n"), ("gopher+ !", lambda s: enc(s) + b"\t!\r\n"),
+                ("http", lambda s: b"GET " + enc(s or "/") + b" HTTP/1.0\r\n\r\n")]
+        n = 0
+        for s in sels:
+            for pname, mk in reqs:
+                a, _l = serve(mk("/T" + s))
+                b, _l = serve(mk("/T.zip" + s))
+                n += 1
+                if norm(a) != norm(b):
+                    return {"confirmed": True, "scenario": "selector %r (%s): the archive and the extracted tree answer differently" % (s, pname),
+                            "extracted": repr(norm(a)[:300]), "archive": repr(norm(b)[:300])}
+        for s in escaping:
+            for pname, mk in reqs:
+                b, _l = serve(mk("/T.zip/" + s))
+                if b"OUTSIDE THE ARCHIVE" in b:
+                    return {"confirmed": True, "scenario": "symbolic link member %r -> %r resolved to a file outside the archive" % (s, escaping[s])}
+        return {"confirmed": None, "note": "real-file scenarios passed; %d archive/extracted comparisons agree" % n}
+    finally:
+        os.chdir(old_cwd)
+        shutil.rmtree(top, ignore_errors=True)
+        shutil.rmtree(cwd, ignore_errors=True)
+        hb.rootpath = None; hm.rootpath = None; hm.handlers = None
+
+
+REALISERS.append(("pygopherd/handlers/ZIP.py::", r_zip))
+for _q in ("pygopherd/handlers/mbox.py::MBoxFolderHandler.canhandlerequest", "pygopherd/handlers/mbox.py::MaildirFolderHandler.canhandlerequest",
+           "pygopherd/handlers/mbox.py::MessageHandler.canhandlerequest", "pygopherd/handlers/pyg.py::PYGHandler.canhandlerequest",
+           "pygopherd/handlers/scriptexec.py::ExecHandler.canhandlerequest"):
+    REALISERS.append((_q, (lambda d: r_zip(d) if d.get("property") == "C16" else None)))
